@@ -717,6 +717,26 @@ static std::string msg_check(long code) {
 }
 
 // ------------------------------------------------------------------------------------------------
+// PART D: Result whose value type is bool (constructible from the Result itself through its explicit
+// operator bool): copy / move assignment between two Results must copy the STATE, not convert the source
+// ------------------------------------------------------------------------------------------------
+static std::string boolres_check(int which) {
+  using RB = nop::Result<OpErr, bool>;
+  auto show = [](const RB& r) { return r.has_value() ? std::string("value(") + (r.get() ? "true" : "false") + ")" : r.has_error() ? "error(" + std::to_string((int)r.error()) + ")" : std::string("empty"); };
+  RB src_states[4] = {RB{}, RB{OpErr::Again}, RB{true}, RB{false}};
+  const int si = which % 4, di = (which / 4) % 4, form = which / 16;   // form 0: copy-assign from non-const lvalue, 1: from const, 2: move-assign, 3: copy-construct
+  RB src = src_states[si];
+  RB dst = src_states[di];
+  const std::string want = show(src_states[si]);
+  if (form == 0) dst = src;
+  else if (form == 1) { const RB& c = src; dst = c; }
+  else if (form == 2) dst = std::move(src);
+  else { RB made(src); dst = made; }
+  if (show(dst) != want) return "state-mismatch: Result<Err,bool> " + std::string(form == 0 ? "copy-assigned from a non-const lvalue" : form == 1 ? "copy-assigned from a const lvalue" : form == 2 ? "move-assigned" : "copy-constructed then assigned") + " from " + want + " over " + show(src_states[di]) + " is " + show(dst);
+  return "";
+}
+
+// ------------------------------------------------------------------------------------------------
 // Reduced alphabets for the bounded-exhaustive driver
 // ------------------------------------------------------------------------------------------------
 static Op mkop(int k, int a, int b = -1, uint64_t n = 0) { Op o{}; o.kind = (uint8_t)k; o.a = (uint8_t)a; o.b = (uint8_t)(b < 0 ? a : b); o.n = n; return o; }
@@ -768,6 +788,8 @@ int main(int argc, char** argv) {
       if (shape < 0 || opi < 0 || !opd_parse(l, lo) || !opd_parse(r, ro)) { fprintf(stderr, "bad cmp in replay file\n"); return 2; }
       m = cmp_check(ty, shape, opi, lo, ro);
       if (m == "skip") { fprintf(stderr, "cmp case does not exist\n"); return 2; }
+    } else if (text.rfind("prop=C13 boolres=", 0) == 0) {
+      m = boolres_check(atoi(text.c_str() + 17));
     } else if (text.rfind("prop=C13 msg=", 0) == 0) {
       m = msg_check(atol(text.c_str() + 13));
     } else { fprintf(stderr, "no C13 case in replay file\n"); return 2; }
@@ -847,6 +869,16 @@ int main(int argc, char** argv) {
     }
   }
 
+  // ---- PART D ----
+  if (a.shard == 0) {
+    for (int w = 0; w < 64; w++) {
+      rep.current_case = "prop=C13 boolres=" + std::to_string(w); rep.evaluations++;
+      std::string m = boolres_check(w);
+      if (!m.empty()) { std::string key = "C13|Result<Err,bool>|" + std::to_string(w / 16); bool seen = false; for (auto& f : rep.failures) if (f.key == key) seen = true; if (!seen) rep.fail(m, rep.current_case, key); }
+      else if (w % 4 != (w / 4) % 4) rep.nontriv(hash_str(rep.current_case));
+    }
+    rep.label("D:result-of-bool-assignments", 64);
+  }
   // ---- PART B ----
   if (a.shard == 0) {
     for (const char* type : {"int", "tracked", "int-long", "int-half", "entry", "opt-entry", "nested"}) {
